@@ -260,6 +260,7 @@ type incarnation struct {
 	spErr    error
 	phase    int // 0 starting, 1 sending, 2 ended
 	sendErr  error
+	wasReset bool // the target dropped this incarnation's connections (fault target_reset_reachable)
 	startOff int64 // offset the input stub resumed the stream at
 	startIdx int   // first item fed to this incarnation
 	startDB  int   // DB returned by StartPoint
